@@ -269,7 +269,25 @@ class Generator:
                         n += 1
                 if n == 0:
                     raise GenError(f'lost-anchor: R2 found no lock prelude in {u.fnpath}')
-                applied.append(f'R2 x{n}')
+                # a TEMPORARY guard on the same lock (`shard.read().unwrap().data...` before the write guard is taken) reads the
+                # state the unit's guard parameter stands for: the expression becomes that parameter (sequential reading of the
+                # code: what another thread does between the two lock scopes is not visible to contracts)
+                removed = [(x[0], x[1]) for x in edits if x[3] == 'R2']
+                lock_of = {}
+                for st in fn['stmts']:
+                    if inside(st['span'], span):
+                        m = re.match(r'^let(?:mut)?(\w+)=(?:self\.)?(\w+)\.(?:read|write|lock)\(\)\.unwrap\(\);', normtok(src[st['span'][0]:st['span'][1]].decode()))
+                        if m:
+                            lock_of.setdefault(m.group(2), m.group(1))
+                t = 0
+                for cc in fn['calls']:
+                    if not inside(cc['span'], span) or cc['method'] != 'unwrap' or any(inside(cc['span'], r) for r in removed):
+                        continue
+                    m = re.fullmatch(r'(?:self\.)?(\w+)\.(?:read|write|lock)\(\)', normtok(src[cc['recv'][0]:cc['recv'][1]].decode()))
+                    if m and m.group(1) in lock_of:
+                        add_edit(cc['span'][0], cc['span'][1], lock_of[m.group(1)], 'R2t')
+                        t += 1
+                applied.append(f'R2 x{n}' + (f' + {t} temporary guard(s) read through the guard parameter' if t else ''))
             elif kind == 'R3':
                 n = 0
                 for m in fn['macros']:
